@@ -88,6 +88,11 @@ def pl_grid(ctx, block):
         s_i, u_i, p_i = _cases_to_tensors(block["cases"])
     else:
         s_i, u_i, p_i = _enumerate(H, T, block["As"], block["Au"], block.get("Ap"))
+    if block.get("tile"):
+        # a path count far above any block size an implementation might process in pieces, and not a
+        # multiple of a power of two: the enumerated rows repeated cyclically
+        idx = torch.arange(block["tile"]) % s_i.size(0)
+        s_i, u_i, p_i = s_i[idx], u_i[idx], (None if p_i is None else p_i[idx])
     N = s_i.size(0)
     first = True if block["first"] is None else block["first"]
     gains, costs, pay = pl_int(s_i, u_i, block["cost"], p_i, first=first)
@@ -117,6 +122,8 @@ def pl_grid(ctx, block):
         mini = {k: block[k] for k in ("H", "T", "cost", "first", "dtype", "fn")}
         mini["cases"] = [case]
         cls = _classify(s_i[i], u_i[i], block)
+        if block.get("tile"):
+            mini, cls = dict(block), cls + "_largeN"
         ctx.violation(site, cls,
                       f"pl != wealth identity on {len(bad)}/{N} rows (H={H},T={T},cost={block['cost']},"
                       f"first={block['first']},payoff={'yes' if p_i is not None else 'no'},{block['dtype']})",
@@ -225,6 +232,12 @@ def build_world(block):
     spot = all_paths(A, T, dtype=dtype)
     if block.get("rows") is not None:
         spot = spot[block["rows"]]
+    tile_idx = None
+    if block.get("tile"):
+        tile_idx = torch.arange(block["tile"]) % spot.size(0)
+    spot_small = spot
+    if tile_idx is not None:
+        spot = spot[tile_idx]
     N = spot.size(0)
     stock = market.primary("brownian", dtype=dtype, cost=costs[0], dt=market.DT, sigma=0.25)
     market.set_buffers(stock, spot=spot)
@@ -251,7 +264,8 @@ def build_world(block):
     stock2 = None
     if hv in ("stock+stock2",):
         stock2 = market.primary("brownian", dtype=dtype, cost=costs[1], dt=market.DT, sigma=0.5)
-        market.set_buffers(stock2, spot=(spot.flip(0) * 2 - 0.5).clamp(min=0.125))
+        spot2 = (spot_small.flip(0) * 2 - 0.5).clamp(min=0.125)
+        market.set_buffers(stock2, spot=spot2 if tile_idx is None else spot2[tile_idx])
     listed = None
     if hv in ("stock+listed", "listed", "listed+stock"):
         listed = I.EuropeanOption(stock, strike=1.125, maturity=(T - 1) * market.DT)
@@ -280,6 +294,12 @@ def build_world(block):
     elif mv == "naked":
         model = Naked(H)
         inputs = ["zeros"]
+    elif mv == "passthrough":
+        # a parameter-free model that hands its single input through (Clamp without bounds): the hedge IS the
+        # feature tensor, whatever storage that tensor shares
+        from pfhedge.nn import Clamp
+        model = Clamp()
+        inputs = [block.get("feature", "underlier_spot")]
     else:
         raise KeyError(mv)
     cls = Hedger
@@ -345,13 +365,30 @@ def hedger_pl(ctx, block):
 
 
 def _hedger_round(ctx, block, hedger, deriv, hedge, exact, r):
+    hl = hedge if hedge is not None else list(deriv.underliers())
+    # the market as registered BEFORE the hedger is asked anything: the oracle's prices
+    spots = oracle_spots(hl).clone()
     with torch.no_grad():
+        unit_ret = hedger.compute_hedge(deriv, hedge=hedge)
+        unit = unit_ret.clone()
         pl = hedger.compute_pl(deriv, hedge=hedge)
         pf = hedger.compute_portfolio(deriv, hedge=hedge)
-        unit = hedger.compute_hedge(deriv, hedge=hedge)
+        unit_again = hedger.compute_hedge(deriv, hedge=hedge)
         payoff = deriv.payoff()
-    hl = hedge if hedge is not None else list(deriv.underliers())
-    spots = oracle_spots(hl)
+    if not torch.equal(oracle_spots(hl), spots):
+        ctx.violation("Hedger.compute_*", "mutates_market" + (f"_round{r}" if r else ""),
+                      f"the registered prices changed while the hedger was evaluated (model={block['model']}, "
+                      f"hedge list {block['hedge']})", block=block)
+    if tuple(unit_ret.shape) == tuple(unit.shape) and not torch.equal(unit_ret, unit):
+        ctx.violation("Hedger.compute_hedge", "returned_hedge_mutated_by_later_call",
+                      f"the tensor returned by compute_hedge was modified by a later compute_pl/compute_portfolio "
+                      f"(model={block['model']}, hedge list {block['hedge']})", block=block)
+    if tuple(unit_again.shape) == tuple(unit.shape) and not torch.equal(unit_again, unit):
+        ctx.violation("Hedger.compute_hedge", "hedge_depends_on_call_history" + (f"_round{r}" if r else ""),
+                      f"compute_hedge on unchanged data differs between consecutive calls "
+                      f"(model={block['model']}, hedge list {block['hedge']})", block=block)
+    if block.get("tile"):
+        return pl, pf, unit, payoff
     costs = [h.cost for h in hl]
     N, H, T = spots.shape
     ctx.tick(2 * N, nontrivial=2 * int((unit[..., 1:] != unit[..., :-1]).any(-1).any(-1).sum()))
@@ -414,6 +451,38 @@ def _hedger_round(ctx, block, hedger, deriv, hedge, exact, r):
                     "compute_pl": pll[i], "reference": float(pl_fraction(sl[i], ul[i], costs, zl[i], True))})
 
 
+@family
+def hedger_large(ctx, block):
+    """Path counts far above any internal block size (and no multiple of one): the enumerated paths repeated
+    cyclically.  P&L, portfolio value and hedge of path i are those of the same path in the small world
+    (a per-path function cannot depend on the batch), and the small world is decided by hedger_pl."""
+    small = dict(block)
+    tile = small.pop("tile")
+    res = []
+    for b in (small, block):
+        hedger, deriv, hedge, _ = build_world(b)
+        with torch.no_grad():
+            res.append((hedger.compute_pl(deriv, hedge=hedge), hedger.compute_portfolio(deriv, hedge=hedge),
+                        hedger.compute_hedge(deriv, hedge=hedge)))
+    n = res[0][0].size(0)
+    idx = torch.arange(tile) % n
+    exact = block["model"] in ("linear", "linear_prev", "naked", "passthrough") and block["dtype"] == "float64"
+    ctx.tick(2 * tile, nontrivial=2 * tile)
+    for name, a, b in zip(("compute_pl", "compute_portfolio", "compute_hedge"), res[0], res[1]):
+        if tuple(b.shape) != (tile,) + tuple(a.shape[1:]):
+            ctx.violation("Hedger." + name, "shape_largeN", f"shape {tuple(b.shape)} for {tile} paths", block=block)
+            continue
+        ref = a[idx]
+        bad = (b != ref) if exact else ((b - ref).abs() > 1e-9 * (1 + ref.abs()))
+        if bool(bad.any()):
+            rows = bad.reshape(tile, -1).any(-1).nonzero().flatten()
+            ctx.violation("Hedger." + name, "path_depends_on_batch_largeN",
+                          f"{name} of {len(rows)} of {tile} paths differs from the same path evaluated in a batch of {n} "
+                          f"(first row {int(rows[0])}; model={block['model']}, hedge list {block['hedge']})",
+                          observed=b[rows[0]].flatten()[:4].tolist(), expected=ref[rows[0]].flatten()[:4].tolist(), block=block)
+    ctx.outcome(("large", block["model"], block["hedge"], round(float(res[1][0].sum()), 6)))
+
+
 # ----------------------------------------------------------------------------
 
 def run(ctx):
@@ -451,6 +520,10 @@ def run(ctx):
             block = {"H": H, "T": T, "As": As, "Au": Au, "Ap": pay, "cost": cost, "first": first,
                      "dtype": dtype, "fn": fn}
             ctx.run("pl_grid", block)
+    # N far above any internal block size
+    for fn, dtype, cost, pay in [("pl", "float64", [1, 2], Ap), ("terminal_value", "float32", [1, 2], None), ("pl", "float32", None, Ap)]:
+        ctx.run("pl_grid", {"H": 2, "T": 3, "As": As2, "Au": Au2, "Ap": pay, "cost": cost, "first": None,
+                            "dtype": dtype, "fn": fn, "tile": 300007})
     # N = 1
     for H, T in [(1, 2), (2, 3)]:
         case = {"spot": [[8 + 2 * t + h for t in range(T)] for h in range(H)],
@@ -468,6 +541,14 @@ def run(ctx):
     # hedger level
     A = [6, 8, 10, 12]
     ctx.alphabet("hedger spot/8", A)
+    for hv, mv, dtype in [("default", "linear", "float64"), ("stock+listed", "linear_prev", "float64"),
+                          ("stock", "bs", "float64"), ("stock+stock2", "linear", "float32"), ("stock", "passthrough", "float64")]:
+        ctx.run("hedger_large", {"T": 3, "A": A, "costs": [1, 3, 2], "hedge": hv, "model": mv, "derivative": "european",
+                                 "dtype": dtype, "wseed": ctx.seed % 7, "tile": 140003})
+    for T, hv, dk, dtype in itertools.product([3, 4], ["default", "stock", "listed"], ["european", "lookback"], ["float64", "float32"]):
+        for feat in ("underlier_spot",):
+            ctx.run("hedger_pl", {"T": T, "A": A, "costs": [1, 3, 2], "hedge": hv, "model": "passthrough", "feature": feat,
+                                  "derivative": dk, "dtype": dtype, "rounds": [0, 1]})
     Ts = [3, 4] if ctx.quick else [3, 4, 5]
     derivs = ["european", "lookback", "european_binary", "american_binary", "forward_start", "variance_swap"]
     for T, hv, mv, dk, dtype in itertools.product(
